@@ -28,7 +28,7 @@ fn main() -> ExitCode {
     // a transfer and then exits once complete ("boss"), or as a remote process on either the source
     // or destination computer which responds to commands from the boss (this is a "doer").
     // The boss (CLI) and doer modes have different command-line arguments, so handle them separately.
-    if std::env::args().any(|a| a == "--doer") {
+    if std::env::args_os().any(|a| a == "--doer") {
         doer_main()
     } else {
         boss_main()
